@@ -324,6 +324,25 @@ def runXCalls (env : Env κ ν δ) (ov : Overloads) (skipEmpty : Bool) (tables :
     (calls : List (XCall κ δ)) : List (Option (List ν)) :=
   runCalls env skipEmpty tables (calls.map (XCall.toCall ov))
 
+/-- The name `StylesheetRoot::getNodeSetByKey` reads for its lookup when it was called through the string-name
+overload of `StylesheetExecutionContextDefault::getNodeSetByKey` (prefixed key names).  `byValue`: the overload
+resolved the name into a QName of its own.  Otherwise it resolved it into the execution context's shared scratch
+QName and handed on a *reference*: if the call has to build the table (no table cached for the key node,
+declarations exist) and evaluating some `match`/`use` during the build resolves another QName through the scratch
+(`buildOverwrites`: 3-argument `format-number`, `function-available`, `element-available`), the lookup after the
+build reads that other name (`scratchAfter`).  Regenerated flag: `Generated.C15_ExecContext.stringNameByValue`. -/
+def nameSeen (byValue buildOverwrites : Bool) (scratchAfter : κ) (env : Env κ ν δ) (tables : KeyTables κ ν δ)
+    (theKeyNode : δ) (qname : κ) : κ :=
+  if byValue then qname
+  else if (AL.find theKeyNode tables).isNone && !env.keyDeclarations.isEmpty && buildOverwrites then scratchAfter
+  else qname
+
+/-- `key('p:name', 'ref')` through the string-name overload (the table build itself never looks at the name, so the
+overwritten name can be substituted up front) -/
+def prefixedKeyCall (byValue buildOverwrites : Bool) (scratchAfter : κ) (env : Env κ ν δ) (tables : KeyTables κ ν δ)
+    (theKeyNode : δ) (qname : κ) (ref : String) : KeyTables κ ν δ × Option (List ν) :=
+  rootGetNodeSetByKey env tables theKeyNode (nameSeen byValue buildOverwrites scratchAfter env tables theKeyNode qname) ref []
+
 end Root
 
 /-! ## specification (XSLT 1.0 §12.2) -/
